@@ -22,6 +22,7 @@ mod c15;
 mod c16;
 mod c17;
 mod c18;
+mod c19;
 mod c20;
 mod alloc;
 
@@ -68,6 +69,7 @@ fn main() {
     "C16" => c16::run(&ctx),
     "C17" => c17::run(&ctx),
     "C18" => c18::run(&ctx),
+    "C19" => c19::run(&ctx),
     "C20" => c20::run(&ctx),
     _ => {
       eprintln!("unknown property {}", prop);
